@@ -383,6 +383,66 @@ def refDup (now : Nat) (xs : List Item) : Bool :=
 def RefStore.importAll (now : Nat) (xs : List Item) : Option RefStore :=
   if refDup now xs then none else some (xs.foldl (RefStore.setWithRef now) RefStore.empty)
 
+/-- Go `removeValue`: overwrite the first occurrence with the last element and drop the last -/
+def swapRemove : List Nat → Nat → List Nat
+  | [], _ => []
+  | x :: xs, id =>
+    if x = id then (match xs.getLast? with | none => [] | some z => z :: xs.dropLast)
+    else x :: swapRemove xs id
+
+/-- `delete…RefByKey`: remove the id from the list under the time key; an emptied list deletes the key -/
+def refDel (t id : Nat) (r : Refs) : Refs :=
+  if (swapRemove ((kvGet t r).getD []) id).isEmpty then kvDel t r
+  else kvSet ltNat t (swapRemove ((kvGet t r).getD []) id) r
+
+/-- the write paths of a reference store (what `RsInv` is proved over): creation through
+    `Set…WithRefKey` under a fresh id, `moveUpcoming…ToActive…`, `moveActive…ToFinished…`,
+    rewriting a stored record without touching id or start time (`setGauge` / `SetStream`), and
+    x/streamer's `TerminateStream` (active or upcoming → finished) -/
+inductive RsOp
+  | create (x : Item)
+  | activate (id : Nat)
+  | finish (id : Nat)
+  | update (y : Item)
+  | terminate (id : Nat)
+  deriving Repr
+
+def rsStep (now : Nat) (s : RefStore) : RsOp → RefStore
+  | .create x => if kvHas x.id s.items then s else s.setWithRef now x
+  | .activate id =>
+    match kvGet id s.items with
+    | some x =>
+      if now < x.start then s   -- "… is not able to start distribution yet"
+      else if id ∈ (kvGet x.start s.upcoming).getD [] then
+        { s with upcoming := refDel x.start id s.upcoming, active := refAdd x.start id s.active }
+      else s
+    | none => s
+  | .finish id =>
+    match kvGet id s.items with
+    | some x =>
+      if id ∈ (kvGet x.start s.active).getD [] then
+        { s with active := refDel x.start id s.active, finished := refAdd x.start id s.finished }
+      else s
+    | none => s
+  | .update y =>
+    match kvGet y.id s.items with
+    | some x => if x.start = y.start then { s with items := kvSet ltNat y.id y s.items } else s
+    | none => s
+  | .terminate id =>   -- `TerminateStream`: the source class is chosen by the CLOCK, not by where the id is filed
+    match kvGet id s.items with
+    | some x =>
+      if x.isActive now then
+        (if id ∈ (kvGet x.start s.active).getD [] then
+          { s with active := refDel x.start id s.active, finished := refAdd x.start id s.finished } else s)
+      else if x.isUpcoming now then
+        (if id ∈ (kvGet x.start s.upcoming).getD [] then
+          { s with upcoming := refDel x.start id s.upcoming, finished := refAdd x.start id s.finished } else s)
+      else s
+    | none => s
+
+/-- any history (each op at its own clock value), from the empty store -/
+def rsRun (ops : List (Nat × RsOp)) : RefStore := ops.foldl (fun s o => rsStep o.1 s o.2) RefStore.empty
+
 /-! #### x/incentives (x/incentives/keeper/genesis.go) -/
 
 structure IncState where
